@@ -9,7 +9,15 @@ from rules.c09 import check_count_pairing, field_leaf
 GUARDED = ['Story::continue_maximally', 'Story::get_current_text', 'Story::get_current_tags', 'Story::reset_state',
            'Story::reset_callstack', 'Story::switch_flow', 'Story::choose_path_string', 'Story::evaluate_function',
            'Story::bind_external_function', 'Story::unbind_external_function', 'Story::observe_variable',
-           'Story::remove_variable_observer']
+           'Story::remove_variable_observer', 'Story::choose_choice_index', 'Story::load_state', 'Story::set_variable',
+           'Story::remove_flow', 'Story::switch_to_default_flow']
+# public methods that write but are not "state-changing calls" in the property's sense
+UNGUARDED_OK = {
+    'Story::cont': 'the continue itself (finishes the unfinished line)',
+    'Story::continue_async': 'the continue itself',
+    'Story::set_error_handler': 'configuration of the host interface, not story state',
+    'Story::set_allow_external_function_fallbacks': 'configuration of the host interface, not story state',
+}
 
 START_ACTIONS = ['StoryState::reset_output', 'VariablesState::start_variable_observation']
 END_ACTIONS = ['VariablesState::complete_variable_observation']
@@ -66,7 +74,10 @@ def run(chk, prog):
             if wbf.eff.may_write(f) - {'Story::prev_containers'} and not any(
                     callee_short(t) == 'Story::if_async_we_cant' for _, t in f.calls()):
                 unguarded.append(f.short)
-    chk.extra_cov['unguarded_writing_methods_information_only'] = sorted(unguarded)
+    for nm in sorted(unguarded):
+        chk.decide(RA, chk.key(RA, nm, 'writes-unguarded'), nm in UNGUARDED_OK, UNGUARDED_OK.get(nm, ''),
+                   '%s is public, changes the story and does not call if_async_we_cant: it can run between two slices of a '
+                   'time-limited continue, on a half-evaluated line' % nm, prog.fn(nm).loc(0) if prog.fn(nm) else None)
 
     # ---- (b)
     ci = prog.fn('Story::continue_internal')
